@@ -31,8 +31,9 @@ type Obligation struct {
 }
 
 type localAlloc struct {
-	ref  Term
-	keys []string
+	ref   Term
+	keys  []string
+	alloc *ssa.Alloc
 }
 
 type closureInfo struct {
@@ -62,8 +63,9 @@ type Enc struct {
 	assumed     map[string]bool // callee contracts / axioms used
 	effectFree  map[string]bool
 	havocCalls  map[string]bool
+	nEmb        int
 	topFr       *frame
-	topDerefs   map[string]derefVar
+	topDerefs  map[string]derefVar
 	countHits  map[string]int
 	loopOrd    map[*ssa.BasicBlock]int
 }
@@ -121,6 +123,7 @@ func (x *Enc) run() {
 		x.oblNames = map[string]int{}
 		x.strs = map[string]Term{}
 		x.countHits = nil
+		x.nEmb = 0
 		x.encodeTop()
 		if !x.changed {
 			return
@@ -1008,7 +1011,7 @@ func isConstLike(v ssa.Value) bool {
 
 // findLocal finds the SSA value of source variable `name` that is live at block b and not loop-carried.
 func (fr *frame) findLocal(b *ssa.BasicBlock, name string) ssa.Value {
-	var best ssa.Value
+	var best, zero ssa.Value
 	for _, blk := range fr.fn.Blocks {
 		if !(blk.Dominates(b)) || blk == b {
 			continue
@@ -1016,12 +1019,36 @@ func (fr *frame) findLocal(b *ssa.BasicBlock, name string) ssa.Value {
 		for _, in := range blk.Instrs {
 			if d, ok := in.(*ssa.DebugRef); ok && !d.IsAddr {
 				if id := d.Object(); id != nil && id.Name() == name {
+					if c, isC := d.X.(*ssa.Const); isC && c.Value == nil {
+						// `x := T{...}` records the zero value at the definition and the built value at the uses
+						zero, best = d.X, nil
+						continue
+					}
 					best = d.X
 				}
 			}
 		}
 	}
-	return best
+	if best != nil {
+		return best
+	}
+	// a use further on (in or after the loop) of a value computed before the header: the variable is not
+	// loop-carried (no phi), so that value is the variable's value at the header
+	for _, blk := range fr.fn.Blocks {
+		if !b.Dominates(blk) {
+			continue
+		}
+		for _, in := range blk.Instrs {
+			if d, ok := in.(*ssa.DebugRef); ok && !d.IsAddr {
+				if id := d.Object(); id != nil && id.Name() == name {
+					if def, isI := d.X.(ssa.Instruction); isI && def.Block() != b && def.Block().Dominates(b) {
+						return d.X
+					}
+				}
+			}
+		}
+	}
+	return zero
 }
 
 func (fr *frame) invariantsOf(h *ssa.BasicBlock) []*Clause {
@@ -1180,6 +1207,24 @@ func (fr *frame) loopHeader(b *ssa.BasicBlock, reach Term, hin Heap, ps []*ssa.B
 			}
 		}
 	}
+	// non-escaping local allocations of this function that the loop never stores to keep their content
+	if len(mods) > 0 {
+		body := naturalLoop(b)
+		for _, la := range x.localAllocs {
+			if la.alloc == nil || la.alloc.Parent() != fr.fn || body[la.alloc.Block()] || storedIn(body, la.alloc) {
+				continue
+			}
+			for _, k := range la.keys {
+				if !mods[k] {
+					continue
+				}
+				if _, ok := x.keys[k]; !ok {
+					continue
+				}
+				x.sc.assertC(implies(reach, eq(app("select", x.hget(h, k), la.ref), app("select", x.hget(hin, k), la.ref))), "local variable "+la.alloc.Comment+" is not assigned in the loop")
+			}
+		}
+	}
 	// pointer phis are bounded by the (new) allocation top
 	for _, in := range b.Instrs {
 		phi, ok := in.(*ssa.Phi)
@@ -1230,6 +1275,33 @@ func (fr *frame) loopHeader(b *ssa.BasicBlock, reach Term, hin Heap, ps []*ssa.B
 		x.sc.assertC(implies(reach, x.evalBool(env, clauseExpr(ci))), "assume invariant "+c.Text)
 	}
 	return h
+}
+
+// storedIn: some store in the given blocks writes through an address rooted at the allocation.
+func storedIn(body map[*ssa.BasicBlock]bool, a *ssa.Alloc) bool {
+	for blk := range body {
+		for _, in := range blk.Instrs {
+			st, ok := in.(*ssa.Store)
+			if !ok {
+				continue
+			}
+			v := st.Addr
+			for v != nil {
+				if v == ssa.Value(a) {
+					return true
+				}
+				switch w := v.(type) {
+				case *ssa.FieldAddr:
+					v = w.X
+				case *ssa.IndexAddr:
+					v = w.X
+				default:
+					v = nil
+				}
+			}
+		}
+	}
+	return false
 }
 
 func (x *Enc) freshValNamed(name string, t types.Type) Val {
